@@ -218,6 +218,9 @@ func (x *Exec) externCall(f *frame, in ssa.Instruction, callee *ssa.Function, c 
 			return v, true
 		}
 	}
+	if v, ok := x.atomicCall(f, in, name, c, args); ok {
+		return v, true
+	}
 	switch name {
 	case "strconv.ParseUint":
 		// base 10, 64 bits only
@@ -341,6 +344,18 @@ func (x *Exec) lockOp(f *frame, in ssa.Instruction, c *ssa.CallCommon, args []Va
 		}
 	}
 	ov := x.val(owner)
+	if x.fc != nil && x.fc.Opts["atomic"] == fieldName {
+		// `opt atomic mu`: the method holds the mutex around every access to the receiver's
+		// state, so it is one atomic action and histories are sequences of whole operations;
+		// accesses outside the critical section are rejected below (x.lockDepth).
+		if lock {
+			x.inCrit = true
+		} else if _, isDefer := in.(*ssa.Defer); !isDefer {
+			x.inCrit = false
+		}
+		x.assumed[fmt.Sprintf("%s: critical section under %s.%s treated as one atomic action (all accesses to the protected state are between Lock and the deferred/last Unlock — checked; other goroutines act only between operations)", x.short, typeShort(ownerT), fieldName)] = true
+		return
+	}
 	if mon == nil {
 		// undeclared monitor: other goroutines may change anything while the lock is not held
 		if lock {
